@@ -258,6 +258,19 @@ func (r *vssRun) deliverDeal(i int, replay bool) {
 	case "wrong-recipient", "cipher-bitflip", "forged-signature", "signed-by-other":
 		transport = fault
 	}
+	if replay && r.views[i].ready && rapid.Bool().Draw(r.t, "replayother") {
+		// the second, authentic message is NOT the first one again: another session id of the same
+		// length (a deal of an earlier session of the same dealer and verifiers), optionally a longer
+		// commitment vector.  It must be refused and must leave no trace in the verifier.
+		for k := range d.SID {
+			d.SID[k] ^= 0x5c
+		}
+		if rapid.Bool().Draw(r.t, "replaylonger") {
+			d.Commits = append(d.Commits, r.g.Point().Base())
+		}
+		fault += "+other-session"
+		r.stats["second-different-deal"] = true
+	}
 	src := i
 	if transport == "wrong-recipient" {
 		src = (i + 1) % r.n
@@ -849,7 +862,7 @@ func c10HonestRun(r *vssRun) {
 	r.ev.Case(r.th != uint32(r.n) || r.n > 3, strings.Join(r.hist, " | "), "vss:"+r.impl.name, "vss-"+r.impl.name+":all-honest")
 }
 
-const c10Rule = "case = (variant Pedersen|Rabin, n in 3..6 verifiers, t in 2..n, secret from edge classes) + either an all-honest run with generated deal and response delivery orders, or a history: per verifier a deal fault from {honest, share+1, one commitment altered for this verifier only, another verifier's index inside the deal, threshold out of range, threshold different from the others, another verifier's encrypted deal, ciphertext bit flip, corrupted dealer signature, signature by another key, never delivered} produced through the dealer's own encryption path, " +
+const c10Rule = "case = (variant Pedersen|Rabin, n in 3..6 verifiers, t in 2..n, secret from edge classes) + either an all-honest run with generated deal and response delivery orders, or a history: per verifier a deal fault from {honest, share+1, one commitment altered for this verifier only, another verifier's index inside the deal, threshold out of range, threshold different from the others, another verifier's encrypted deal, ciphertext bit flip, corrupted dealer signature, signature by another key, never delivered} produced through the dealer's own encryption path (a re-delivery may carry ANOTHER authentic deal: other session id, optionally a longer commitment vector - refused, and without a trace), " +
 	"then n..8n steps drawn from {deliver (or re-deliver) a deal, deliver a response V_i -> party of kind genuine / corrupted signature / other session id / foreign index / out-of-range index / inverted status / validly signed Byzantine complaint / validly signed Byzantine approval, deliver a justification (the dealer reveals the honest deal, share+1, self-consistent foreign commitments, another index' deal, or a bad threshold), SetTimeout at a party}. " +
 	"After EVERY step, on every party that holds a deal: certified => at least t valid approvals or correctly justified complaints in that party's accepted history and no incorrect justification processed; documented completeness (enough approvals, nothing outstanding => certified); certified => t approved deals reconstruct the committed secret; every library call must return an error exactly when the harness model says the message is invalid for that receiver, approvals only for deals that authenticate, carry this verifier's index, a threshold in range and a share on the committed polynomial. " +
 	"non-trivial = a faulty deal was processed, a complaint, a justification, a timeout or a Byzantine response occurred (or an all-honest run with n>3 or t<n); distinct = distinct history text" +
